@@ -1144,10 +1144,11 @@ Fixpoint wfb (s : spec) : bool :=
   end.
 
 
-(* an Enum is noneable exactly when None is one of its values (Enum.__init__ / Enum.noneable) *)
+(* an Enum is noneable exactly when None is one of its values (Enum.__init__ / Enum.noneable),
+   and MISSING_VALUE is not a candidate *)
 Fixpoint enums_ok (s : spec) : bool :=
   match s with
-  | SEnum vs m => Bool.eqb (noneable m) (has_none vs)
+  | SEnum vs m => Bool.eqb (noneable m) (has_none vs) && negb (existsb is_missing vs)
   | SList e _ _ _ => enums_ok e
   | STuple es _ _ _ => forallb enums_ok es
   | SDict (Some fs) _ => forallb (fun kf => enums_ok (snd kf)) fs
